@@ -3,5 +3,5 @@ Require Import ExtrOcamlBasic.
 Require Import NS.theories.GenStack NS.theories.StackModel.
 Extraction Language OCaml.
 Extraction "extract/ModelStack.ml"
-  StackModel.classify_shape StackModel.model_meta StackModel.off_cycle StackModel.runtime_noguard
+  StackModel.classify_shape StackModel.fn_status GenStack.fn_names StackModel.model_meta StackModel.off_cycle StackModel.runtime_noguard
   StackModel.edge GenStack.call_graph GenStack.jump_edges StackModel.descent_edges.
